@@ -38,3 +38,11 @@ CHECKS["C11"] = (
     "Trusted: float64 eigvalsh for the judged spectra; Haar rotations generated in float64. The torch.linalg.eigh failure is injected by the harness (monkeypatch restored after the call).",
     "DESIGN.md 3 C11",
 )
+
+CHECKS["C12"] = (
+    "exploration",
+    "runtime monitoring: matrix_eigenvectors executed on PSD matrices with designed spectra and estimates; monitors: orthonormality / diagonalisation residuals, ordering, backward-stability check of one QR step, gap-aware cluster-projector match with a float64 orthogonal iteration",
+    "eigh method: ||Q^T Q-I||, off-diagonal of Q^T A Q and ascending order within C*n*u; diagonal flag -> identity (exact), 1x1 -> one. QR method: orthonormal, ascending Rayleigh quotients, zero estimate satisfies the eigh conditions, a single iteration must be a QR factor of A@estimate up to a row permutation (backward check, valid for rank-deficient/unstable inputs), multi-iteration outputs must match the float64 k-fold iteration for some k<=max_iterations on every spectral cluster that is itself insensitive to a rounding-level perturbation of the estimate (sensitivity probe), exact eigenbases stay fixed while the (lmax/lmin)^k rounding amplification is below tolerance. ~700 calls quick / ~13k thorough, n=1..64, float32/float64. Sampled.",
+    "Trusted: float64 torch.linalg.qr/eigh as reference; the sensitivity probe (a perturbed float64 run) decides which clusters are comparable, so ill-conditioned clusters are counted vacuous rather than judged.",
+    "DESIGN.md 3 C12",
+)
